@@ -33,6 +33,59 @@ def long_diff(n):
     return [L("diff", 1, 1, "add"), L("newfile"), L("index"), L("mmm", 0), L("ppp", 1), L("hh")] + [L("plus")] * n
 
 
+def backpressure(V, mb=24):
+    """'Memory does not grow with input size': when nobody reads delta's output, delta must stop reading its input (both are
+    pipes).  A large diff is written into delta's stdin while its stdout is left unread: the writer must be left blocked with
+    most of the input still in its hands.  Returns the number of bytes delta accepted before it blocked."""
+    import os
+    import subprocess
+    import threading
+    head = (b"diff --git a/alphaZ1Z.rs b/alphaZ1Z.rs\nnew file mode 100644\nindex 0000000..2222222\n--- /dev/null\n+++ b/alphaZ1Z.rs\n"
+            b"@@ -0,0 +1,400000 @@\n")
+    line = b"+let value_of_line = compute(some, arguments, here);  // padding padding\n"
+    total = mb * 1024 * 1024
+    p = subprocess.Popen([core.DELTA, "--no-gitconfig", "--paging", "never", "--width", "100"], stdin=subprocess.PIPE, stdout=subprocess.PIPE,
+                         stderr=subprocess.DEVNULL, env=core.base_env(None), cwd=os.path.join(core.scratch(), "cwd"))
+    sent = [0]
+    done = [False]
+
+    def writer():
+        try:
+            p.stdin.write(head)
+            block = line * 512
+            while sent[0] < total:
+                p.stdin.write(block)
+                p.stdin.flush()
+                sent[0] += len(block)
+            p.stdin.close()
+        except (BrokenPipeError, ValueError, OSError):
+            pass
+        done[0] = True
+    th = threading.Thread(target=writer, daemon=True)
+    th.start()
+    last, stable = -1, 0
+    t_end = time.time() + 60
+    while time.time() < t_end and not done[0]:
+        time.sleep(0.5)
+        stable = stable + 1 if sent[0] == last else 0
+        last = sent[0]
+        if stable >= 6:            # no progress for three seconds: the writer is blocked
+            break
+    accepted, finished = sent[0], done[0]
+    p.kill()
+    try:
+        p.stdout.close()
+    except OSError:
+        pass
+    p.wait()
+    if finished and accepted >= total:
+        V.violation("backpressure:input-swallowed", f"with its output left unread, delta took all {mb} MiB of input into memory instead of "
+                    "leaving the producer blocked", {"accepted_bytes": accepted, "input_bytes": total})
+    elif not finished and stable < 6:
+        raise core.ToolError("back-pressure observation did not settle within 60 s")
+    return accepted
+
+
 def run(tier):
     t0 = time.time()
     V = core.Verdict(PID)
@@ -130,6 +183,8 @@ def run(tier):
         jobs.append((h[:8], 32, f"long-{n_long}"))
     else:
         raise core.ToolError("streaming the long diff did not complete")
+    accepted = backpressure(V, 24 if tier == "quick" else 96)
+    log(f"[{PID}] output left unread: delta accepted {accepted} input bytes before it blocked")
     failed, r = tlc.validate_trace("Trace_Lag", events, heap="6g")
     log(f"[{PID}] {len(events)} streamed runs judged by TLC at every input line, {len(failed)} rejected")
     for f in failed:
@@ -147,7 +202,7 @@ def run(tier):
         "rule": "histories = edge cover of the abstract state graphs with long -/+ runs for buffer sizes 0,1,2 (+32), unified and "
                 "side-by-side; each history is fed line by line, stdout observed when delta sleeps in read(0) on an empty pipe, "
                 "and every prefix is also run as a complete input; evaluations = input prefixes judged",
-        "transition_cover": covstats, "long_diff_lines": n_long, "drift": len(V.drift),
+        "transition_cover": covstats, "long_diff_lines": n_long, "drift": len(V.drift), "input_bytes_accepted_with_output_unread": accepted,
         "samples": [{"history": stream.shape(jobs[e["run"]][0]), "B": e["B"], "rows_seen_after_each_line": [len(s) for s in e["seen"]],
                      "rows_of_prefix_run": [len(s) for s in e["pre"]]} for e in events[:3]],
         "exhaustive": False,
